@@ -268,9 +268,9 @@ func (svc *service) stop() {
 		svc.sessMgr.Del(svc.sess.ID())
 	}
 
-	svc.conn = nil
-	svc.in = nil
-	svc.out = nil
+	// conn, in and out are deliberately left in place: other connections'
+	// processors may be delivering to this service right now and read svc.out
+	// without a lock. The closed buffers make those writes fail with io.EOF.
 }
 
 func (svc *service) publish(msg *message.PublishMessage, onComplete OnCompleteFunc) error {
